@@ -70,6 +70,7 @@ class RecipeRun:
         self.idx = -1
         self.n_ok_state = 0
         self.excused = set()    # known-finding ids whose trigger matched in this run (run-level excuses)
+        self.held = []          # slices the user built and handed to recipe calls: (label, object, fingerprint)
         self.near_capacity_fill = False
         self.near_boundary_transfer = False
         self.had_fill = False
@@ -127,7 +128,10 @@ class RecipeRun:
             sel = ref[1]
             if sel.get('k') == 'all':
                 return h
-            return slice_of(h, sel)
+            sl = slice_of(h, sel)
+            if len(self.held) < 40:
+                self.held.append((f"slice of {name} handed to call {self.idx}", sl, fingerprint(self.rep, sl)))
+            return sl
         return h
 
     def eager_ref(self, ref, cur):
@@ -573,6 +577,11 @@ class RecipeRun:
             if now != self.handle_fps[n]:
                 self.V('C04', 'recipe_mutated_argument', ('recipe.' + k, 'handle'), f"{n} changed: {fp_diff(self.handle_fps[n], now)}")
                 self.handle_fps[n] = now
+        for j, (label, obj, fp) in enumerate(self.held):
+            now = fingerprint(rep, obj)
+            if now != fp:
+                self.V('C04', 'recipe_mutated_argument', ('recipe.' + k, 'held-slice'), f"{label} changed: {fp_diff(fp, now)}")
+                self.held[j] = (label, obj, now)
         bad = self.W.check_immutability()
         for label, diff in bad:
             self.V('C04', 'recipe_mutated_argument', ('recipe.' + k, 'live-object'), f"{label} changed: {diff}")
